@@ -11,16 +11,23 @@ import (
 // committer leaves out does not change the root it returns, only what a later reader finds under it.
 func c07Committer(c *Ctx) {
 	if fn := c.Fn("trie", "committer", "commitChildren"); fn != nil {
-		n := len(findInstrs(fn, IfOn(`^\(phi\(.*\) < const:16\)$`)))
+		// the loop over the child slots: an index loop to 16 or a range over the first 16 children
+		loopTest := IfOn(`^\(.* < (const:16|call:len\(n\.Children\[:const:16\]\))\)$`)
+		n := len(findInstrs(fn, loopTest))
 		c.Check("F", fnName(fn)+"/walks the 16 child slots", n == 1, fn.Pos(), n, "")
-		c.AfterGuard(fn, G("child slot i is occupied", NotNil(`^n\.Children\[phi\(.*\)\]$`)),
-			"store children[i]", StoreTo(`^&children\[phi\(`), "the next slot", IfOn(`^\(phi\(.*\) < const:16\)$`))
+		slotStore := func(in ssa.Instruction) bool {
+			st, ok := in.(*ssa.Store)
+			return ok && strings.HasPrefix(pathOf(st.Addr), "&children[") && pathOf(st.Addr) != "&children[const:16]"
+		}
+		c.AfterGuard(fn, G("child slot i is occupied", NotNil(`^n\.Children(\[:const:16\])?\[(phi\(|\(phi\().*\]$`)),
+			"store children[i]", slotStore, "the next slot", loopTest)
 		c.AfterGuard(fn, G("the branch carries a value (slot 16)", NotNil(`^n\.Children\[const:16\]$`)),
 			"store children[16]", StoreTo(`^&children\[const:16\]$`), "return", AnyReturn())
 		ok, seen := true, 0
 		for _, in := range findInstrs(fn, StoreTo(`^&children\[`)) {
 			st := in.(*ssa.Store)
-			a, v := pathOf(st.Addr), pathOf(st.Val)
+			// a range over the first 16 children reads child i as n.Children[:16][i]
+			a, v := pathOf(st.Addr), strings.ReplaceAll(pathOf(st.Val), "n.Children[:const:16][", "n.Children[")
 			idx := a[len("&children[") : len(a)-1]
 			seen++
 			switch {
